@@ -37,6 +37,8 @@ package gonum
 func (impl Implementation) Dorghr(n, ilo, ihi int, a []float64, lda int, tau, work []float64, lwork int) {
 	nh := ihi - ilo
 	switch {
+	case n < 0:
+		panic(nLT0)
 	case ilo < 0 || max(1, n) <= ilo:
 		panic(badIlo)
 	case ihi < min(ilo, n-1) || n <= ihi:
